@@ -32,6 +32,9 @@ func kindInners() []*gen.Expr {
 		gen.Func("map", gen.ExpRef(gen.Chain(nil, gen.StIndex(0))), a()), gen.Func("max_by", a(), gen.ExpRef(gen.Current())), gen.Func("sort_by", a(), gen.ExpRef(gen.LitJSON("1"))), gen.Func("join", gen.Raw(","), gen.MultiList(s(), b())),
 		gen.Chain(a(), gen.StFunc("length", gen.Current())), gen.Chain(gen.Func("to_array", a()), gen.StIndex(0)), gen.Chain(gen.Func("merge", gen.Current(), gen.LitJSON(`{"z":1}`)), gen.StField("z")),
 		gen.Chain(a(), gen.StFilter(gen.Func("contains", gen.LitJSON("[3,5]"), gen.Current()))),
+		gen.Chain(a(), gen.StFilter(gen.Not(gen.Current()))), gen.Chain(a(), gen.StFilter(gen.Cmp("==", gen.Current(), gen.LitJSON("null")))), gen.Chain(gen.Field("x"), gen.StFilter(a()), gen.StField("missing")),
+		gen.Chain(gen.LitJSON("[null, 1, null]"), gen.StFilter(gen.Not(gen.Current()))), gen.Func("length", gen.Chain(gen.LitJSON("[null, 1, null, 0]"), gen.StFilter(gen.Not(gen.Current())))),
+		gen.Cmp("<=", s(), s()), gen.Cmp("==", a(), a()), gen.Cmp(">=", gen.Current(), gen.Current()),
 	}
 }
 
